@@ -15,8 +15,37 @@ from ..build import AnalysisBroken
 
 # functions whose *result* is public although it is computed from secrets: None = in every caller, otherwise only in the
 # named callers (elsewhere the result stays secret, so branching on it is reported).
+def _full_compare(fn, ins, target):
+    """the verdict of a constant-time comparison is the public accept / reject status only when it covers the *whole* secret it is
+    compared against: a local authenticator buffer must be compared from offset 0 over its full size (a verdict on the first half of
+    a tag, used to decide whether to look at the second half, is a secret-dependent branch)"""
+    name = target.sname
+    n = None
+    if name.startswith("crypto_verify_"):
+        n = int(name.rsplit("_", 1)[1])
+    elif len(ins.get("ops", [])) >= 3 and ins["ops"][2][0] == "i":
+        n = ins["ops"][2][1]
+    for o in ins.get("ops", [])[:2]:
+        off = 0
+        while o[0] == "v":
+            d = fn.insts[o[1]]
+            if d["op"] == "bitcast":
+                o = d["ops"][0]
+            elif d["op"] == "getelementptr" and not d.get("var") and d.get("off") is not None:
+                off += d["off"]
+                o = d["ops"][0]
+            else:
+                break
+        if o[0] == "v" and fn.insts[o[1]]["op"] == "alloca":
+            size = fn.insts[o[1]].get("size")
+            if n is None or off != 0 or size != n:
+                return False
+    return True
+
+
 DECLASS_RET = {
-    "crypto_verify_16": None, "crypto_verify_32": None, "crypto_verify_64": None, "sodium_memcmp": None, "sodium_compare": None,
+    "crypto_verify_16": _full_compare, "crypto_verify_32": _full_compare, "crypto_verify_64": _full_compare,
+    "sodium_memcmp": _full_compare, "sodium_compare": None,
     # "is the encoded result / the scalar all-zero?" is the documented error status of these four scalar multiplications
     # only; anywhere else (e.g. the is-zero tests inside the square-root / inversion helpers) it stays secret
     "sodium_is_zero": {"_crypto_scalarmult_ed25519", "_crypto_scalarmult_ed25519_base",
@@ -54,6 +83,9 @@ ENTRIES = [
     ("crypto_onetimeauth_poly1305", (1, 3), ()),
     ("crypto_hash_sha256", (1,), ()), ("crypto_hash_sha512", (1,), ()),
     ("crypto_auth_hmacsha256", (1, 3), ()), ("crypto_auth_hmacsha512", (1, 3), ()), ("crypto_auth_hmacsha512256", (1, 3), ()),
+    # verification: message and key secret, candidate tag public; only the verdict on the whole authenticator is public
+    ("crypto_auth_hmacsha256_verify", (1, 3), ()), ("crypto_auth_hmacsha512_verify", (1, 3), ()),
+    ("crypto_auth_hmacsha512256_verify", (1, 3), ()), ("crypto_onetimeauth_poly1305_verify", (1, 3), ()),
     ("crypto_generichash_blake2b", (2, 4), ()),
     ("crypto_shorthash_siphash24", (1, 3), ()), ("crypto_shorthash_siphashx24", (1, 3), ()),
     ("crypto_aead_aes256gcm_encrypt", (2, 8), ()), ("crypto_aead_aes256gcm_encrypt_detached", (3, 9), ()),
